@@ -20,6 +20,9 @@ TABLES = {
     "alice+bob": [M.UserSpec("alice", None, home="/home"), M.UserSpec("bob", "pw", home="/d")],
     "bob-only": [M.UserSpec("bob", "pw", home="/d")],
 }
+# a table whose password-protected user has a connection limit of 1 that another session is holding
+TABLES["bob-held-by-another-session"] = [M.UserSpec(None), M.UserSpec("bob", "pw", home="/d", maxconn=1)]
+HELD = {"bob-held-by-another-session": "bob"}
 LOGIN = ["USER anonymous", "USER alice", "USER bob", "USER nobody", "USER", "PASS pw", "PASS wrong", "PASS",
          "PASV", "@data", "CWD /d", "RNFR /g", "REST 2"]
 PROBES = ["PWD", "CWD /d", "CDUP", "MKD /new", "RMD /home", "DELE /g", "RNFR /g", "RNTO /h2", "MLST /g", "MLSD /", "LIST /",
@@ -41,10 +44,17 @@ def spellings(line):
 def run_hist(table, hist, probe=None):
     conf = Conf(TABLES[table], TREE)
     spy = backends.SpyControl()
-    rig = conf.new_rig(spy=spy)
+    rig = conf.new_rig(spy=spy, n_sessions=2 if table in HELD else 1)
     model = conf.new_model()
     problems = []
     try:
+        if table in HELD:
+            spy.armed = False
+            rig.ev(1, "@connect")
+            rig.ev(1, "USER " + HELD[table])
+            rig.ev(1, "PASS pw")
+            spy.armed = True
+            model.others = {HELD[table]: 1}
         rig.ev(0, "@connect")
         w = rig.world
         steps = list(hist) + ([probe] if probe else [])
